@@ -3,22 +3,29 @@ From GF Require Import Base FastaModel GenbankModel.
 Open Scope N_scope.
 
 Definition nospace (w : list N) : Prop := Forall (fun c => is_space c = false) w.
-Record qual := { qk : list N; qv : list N; qquoted : bool }.
+Record qual := { qk : list N; qv : list N; qquoted : bool; qmore : list (list N) }.   (* qmore: the further lines of a quoted value that runs over several lines (a long /translation) *)
 Record wfeat := { fk : list N; floc : list N; fmore : list (list N); fquals : list qual }.   (* fmore: the rest of a location too long for one line *)
 Definition indent (n : nat) : list N := repeat 32 n.
 Definition feat_line (f : wfeat) : list N := indent 5 ++ fk f ++ indent 3 ++ floc f.
 Definition value_text (q : qual) : list N := if qquoted q then [34] ++ qv q ++ [34] else qv q.
 Definition qual_line (q : qual) : list N := indent 21 ++ [47] ++ qk q ++ [61] ++ value_text q.
 Definition cont_line (c : list N) : list N := indent 21 ++ c.
-Definition feat_lines (f : wfeat) : list (list N) := feat_line f :: map cont_line (fmore f) ++ map qual_line (fquals f).
+Definition qual_first (q : qual) : list N := indent 21 ++ [47] ++ qk q ++ [61] ++ [34] ++ qv q.             (* slash k equals quote v: the quote is not closed on this line *)
+Fixpoint more_lines (cs : list (list N)) : list (list N) :=
+  match cs with [] => [] | [c] => [indent 21 ++ c ++ [34]] | c :: t => (indent 21 ++ c) :: more_lines t end.
+Definition qual_lines (q : qual) : list (list N) := match qmore q with [] => [qual_line q] | cs => qual_first q :: more_lines cs end.
+Definition feat_lines (f : wfeat) : list (list N) := feat_line f :: map cont_line (fmore f) ++ concat (map qual_lines (fquals f)).
 Definition render_features (fs : list wfeat) : list (list N) := concat (map feat_lines fs).
 Definition full_loc (f : wfeat) : list N := floc f ++ concat (fmore f).
-Definition kv (q : qual) : list N * list N := (qk q, qv q).
+Definition qfull (q : qual) : list N := qv q ++ concat (qmore q).
+Definition kv (q : qual) : list N * list N := (qk q, qfull q).
 Definition parsed (f : wfeat) : gbfeat := {| gf_key := fk f; gf_loc := full_loc f; gf_info := Some (map kv (fquals f)) |}.
 
 Definition lacks (s : N) (x : list N) : Prop := forall c, In c x -> c <> s.
+Definition wf_vchunk (c : list N) : Prop := c <> [] /\ lacks 34 c /\ is_space (hd 0 c) = false /\ is_space (last c 0) = false.
 Definition wf_qual (q : qual) : Prop :=
-  qk q <> [] /\ lacks 61 (qk q) /\ qv q <> [] /\ lacks 61 (qv q) /\ lacks 34 (qv q) /\ (qquoted q = false -> nospace (qv q)).
+  qk q <> [] /\ lacks 61 (qk q) /\ qv q <> [] /\ lacks 61 (qv q) /\ lacks 34 (qv q) /\ (qquoted q = false -> nospace (qv q)) /\
+  (qmore q <> [] -> qquoted q = true /\ is_space (last (qv q) 0) = false /\ Forall wf_vchunk (qmore q)).
 Definition wf_chunk (c : list N) : Prop := c <> [] /\ nospace c /\ hd 0 c <> 47.
 Definition wf_feat (f : wfeat) : Prop :=
   fk f <> [] /\ nospace (fk f) /\ hd 0 (fk f) <> 47 /\ floc f <> [] /\ nospace (floc f) /\ fquals f <> [] /\ Forall wf_qual (fquals f) /\ Forall wf_chunk (fmore f).
@@ -75,7 +82,7 @@ Proof.
 Qed.
 Lemma last_nonspace q : wf_qual q -> exists y d, value_text q = y ++ [d] /\ is_space d = false.
 Proof.
-  intros (_ & _ & Hv & _ & _ & Hns). unfold value_text. destruct (qquoted q) eqn:Eq.
+  intros (_ & _ & Hv & _ & _ & Hns & _). unfold value_text. destruct (qquoted q) eqn:Eq.
   - exists ([34] ++ qv q), 34. split; [rewrite <- app_assoc; reflexivity|reflexivity].
   - destruct (exists_last Hv) as (y & d & E). exists y, d. split; [exact E|]. specialize (Hns eq_refl). unfold nospace in Hns. rewrite Forall_forall in Hns.
     apply Hns. rewrite E. apply in_app_iff. right; left; reflexivity.
@@ -160,22 +167,109 @@ Proof.
   unfold put_info. rewrite Hm. rewrite (new_feat_line f Hf). reflexivity.
 Qed.
 
+(* ---- a quoted value that runs over several lines ---- *)
+Lemma is_feature_qual_first q b : is_feature_line (qual_first q) b = false.
+Proof.
+  unfold is_feature_line, qual_first. rewrite fields_indent.
+  assert (E0 : fields_go ([47] ++ qk q ++ [61] ++ [34] ++ qv q) [] = fields_go (qk q ++ [61] ++ [34] ++ qv q) [47]) by reflexivity.
+  rewrite E0. clear E0.
+  destruct (fields_first_acc (qk q ++ [61] ++ [34] ++ qv q) [47]) as (w & rest & E); [discriminate|]. rewrite E. cbn [rev app].
+  destruct b; [|reflexivity]. cbn [andb]. destruct rest as [|r1 [|r2 rest']]; reflexivity.
+Qed.
+Lemma trim_qual_first q : qv q <> [] -> is_space (last (qv q) 0) = false -> trim_space (qual_first q) = 47 :: qk q ++ [61] ++ [34] ++ qv q.
+Proof.
+  intros Hv Hl. destruct (exists_last Hv) as (y & d & Ey). unfold qual_first.
+  apply (trim_space_line 21 ([47] ++ qk q ++ [61] ++ [34] ++ qv q) 47 (qk q ++ [61] ++ [34] ++ qv q) ([47] ++ qk q ++ [61] ++ [34] ++ y) d); try reflexivity.
+  - rewrite Ey, <- !app_assoc. reflexivity.
+  - rewrite Ey, last_last in Hl. exact Hl.
+Qed.
+Lemma scan_qual_first q : lacks 61 (qk q) -> lacks 61 (qv q) -> lacks 34 (qv q) ->
+  fold_left qual_char (qk q ++ [61] ++ [34] ++ qv q) {| q_iskey := true; q_closed := true; q_key := []; q_val := [] |} =
+  {| q_iskey := false; q_closed := false; q_key := rev (qk q); q_val := rev (qv q) |}.
+Proof.
+  intros Hk61 Hv61 Hv34. rewrite fold_left_app, (scan_key _ Hk61) by reflexivity. cbn [q_closed q_key q_val app fold_left].
+  unfold qual_char at 2. cbn [N.eqb Pos.eqb]. rewrite app_nil_r. unfold qual_char at 2. cbn [N.eqb Pos.eqb q_iskey q_closed q_key q_val negb].
+  rewrite (scan_val _ Hv61 Hv34) by reflexivity. cbn [q_closed q_key q_val]. rewrite app_nil_r. reflexivity.
+Qed.
+Definition cur_after (s : gbst) (m : list (list N * list N)) : gbfeat :=
+  match st_key s with [] => st_cur s | _ => with_info (st_cur s) (m ++ [(st_key s, st_val s)]) end.
+Lemma step_qual_first s q m : wf_qual q -> qmore q <> [] -> st_closed s = true -> gf_info (st_cur s) = Some m ->
+  gb_step s (qual_first q) =
+  Ok {| st_closed := false; st_cur := cur_after s m; st_key := qk q; st_val := qv q; st_done := st_done s; st_line := S (st_line s) |}.
+Proof.
+  intros (Hk & Hk61 & Hv & Hv61 & Hv34 & _ & Hm) Hne Hc Hinfo. destruct (Hm Hne) as (_ & Hl & _).
+  unfold gb_step_gen. rewrite is_feature_qual_first. cbn [andb]. rewrite (trim_qual_first q Hv Hl). cbn [N.eqb Pos.eqb andb].
+  rewrite (scan_qual_first q Hk61 Hv61 Hv34). cbn [q_closed q_key q_val]. rewrite !rev_involutive. unfold cur_after.
+  destruct (st_key s) as [|k0 kt] eqn:Ek; [reflexivity|]. rewrite Hc. cbn [negb]. unfold put_info. rewrite Hinfo. reflexivity.
+Qed.
+Lemma scan_cont_chunk c : lacks 34 c -> forall st, fold_left cont_char c st =
+  {| q_iskey := q_iskey st; q_closed := q_closed st; q_key := q_key st; q_val := rev c ++ q_val st |}.
+Proof.
+  induction c as [|x c IH]; intros H st; [destruct st; reflexivity|]. cbn [fold_left].
+  assert (Hx : x <> 34) by (apply H; left; reflexivity). unfold cont_char at 2. destruct (N.eqb_spec x 34); [contradiction|].
+  rewrite IH by (intros y Hy; apply H; right; exact Hy). cbn [q_iskey q_closed q_key q_val rev]. rewrite <- app_assoc. reflexivity.
+Qed.
+Lemma trim_vchunk c tail : wf_vchunk c -> (tail = [] \/ tail = [34]) -> trim_space (indent 21 ++ c ++ tail) = c ++ tail.
+Proof.
+  intros (Hne & _ & Hh & Hl) Ht. destruct c as [|c0 r] eqn:Ec; [congruence|]. rewrite <- Ec in *. cbn [hd] in Hh. rewrite Ec in Hh. cbn [hd] in Hh.
+  destruct Ht as [->| ->].
+  - rewrite app_nil_r. destruct (exists_last Hne) as (y & d & Ey). apply (trim_space_line 21 c c0 r y d); [exact Ec|exact Hh|exact Ey|].
+    rewrite Ey, last_last in Hl. exact Hl.
+  - apply (trim_space_line 21 (c ++ [34]) c0 (r ++ [34]) c 34); [rewrite Ec; reflexivity|exact Hh|reflexivity|reflexivity].
+Qed.
+Lemma step_more s c (closing : bool) : wf_vchunk c -> st_closed s = false -> st_key s <> [] ->
+  gb_step s (indent 21 ++ c ++ (if closing then [34] else [])) =
+  Ok {| st_closed := closing; st_cur := st_cur s; st_key := st_key s; st_val := st_val s ++ c; st_done := st_done s; st_line := S (st_line s) |}.
+Proof.
+  intros Hc Hcl Hk. unfold gb_step_gen. unfold is_feature_line. rewrite Hcl. cbn [andb].
+  rewrite (trim_vchunk c (if closing then [34] else []) Hc) by (destruct closing; [right|left]; reflexivity).
+  destruct Hc as (Hne & H34 & _). destruct c as [|c0 r] eqn:Ec; [congruence|]. rewrite <- Ec. 
+  assert (Et : exists t, c ++ (if closing then [34] else []) = c0 :: t) by (rewrite Ec; eexists; reflexivity). destruct Et as (t & Et). rewrite Et.
+  destruct (st_key s) as [|k0 kt] eqn:Ek; [congruence|]. rewrite andb_false_r. cbn [negb]. rewrite <- Et.
+  rewrite fold_left_app, (scan_cont_chunk c) by (rewrite Ec; exact H34). cbn [q_iskey q_closed q_key q_val].
+  destruct closing; cbn [fold_left]; [unfold cont_char; cbn [N.eqb Pos.eqb q_closed q_val negb]|].
+  all: assert (Er : rev (rev c ++ rev (st_val s)) = st_val s ++ c) by (rewrite rev_app_distr, !rev_involutive; reflexivity).
+  all: cbn [q_closed q_val]; rewrite Er; reflexivity.
+Qed.
+Lemma fold_more cs : cs <> [] -> Forall wf_vchunk cs -> forall s rest, st_closed s = false -> st_key s <> [] ->
+  gb_fold s (more_lines cs ++ rest) =
+  gb_fold {| st_closed := true; st_cur := st_cur s; st_key := st_key s; st_val := st_val s ++ concat cs; st_done := st_done s; st_line := (st_line s + length cs)%nat |} rest.
+Proof.
+  induction cs as [|c t IH]; intros Hne Hw s rest Hcl Hk; [congruence|]. inversion Hw as [|? ? Hc Ht]; subst. destruct t as [|c' t'].
+  - cbn [more_lines app gb_fold_gen]. rewrite (step_more s c true Hc Hcl Hk). cbn [bind concat length]. rewrite app_nil_r, Nat.add_1_r. reflexivity.
+  - change (more_lines (c :: c' :: t')) with ((indent 21 ++ c) :: more_lines (c' :: t')). cbn [app gb_fold_gen].
+    pose proof (step_more s c false Hc Hcl Hk) as E. cbn iota in E. rewrite app_nil_r in E. rewrite E. cbn [bind].
+    rewrite IH; [|discriminate|exact Ht|reflexivity|exact Hk]. cbn [st_cur st_key st_val st_done st_line concat length].
+    rewrite <- app_assoc. do 2 f_equal. lia.
+Qed.
+(* all the lines of one qualifier: the pending qualifier (if any) goes into the feature, this one becomes pending with its WHOLE value *)
+Lemma qual_block s q m rest : wf_qual q -> st_closed s = true -> gf_info (st_cur s) = Some m ->
+  exists n, gb_fold s (qual_lines q ++ rest) =
+    gb_fold {| st_closed := true; st_cur := cur_after s m; st_key := qk q; st_val := qfull q; st_done := st_done s; st_line := S (st_line s + n) |} rest.
+Proof.
+  intros Hq Hc Hm. unfold qual_lines, qfull. destruct (qmore q) as [|c cs] eqn:Eq.
+  - exists 0%nat. cbn [app gb_fold_gen]. rewrite (step_qual s q m Hq Hc Hm). cbn [bind concat]. rewrite app_nil_r, Nat.add_0_r. reflexivity.
+  - exists (length (c :: cs)). cbn [app gb_fold_gen]. rewrite (step_qual_first s q m Hq) by (try assumption; rewrite Eq; discriminate). cbn [bind].
+    destruct Hq as (Hk & _ & _ & _ & _ & _ & Hmore). destruct Hmore as (_ & _ & Hw); [rewrite Eq; discriminate|]. rewrite Eq in Hw.
+    rewrite (fold_more (c :: cs)); [|discriminate|exact Hw|reflexivity|exact Hk]. reflexivity.
+Qed.
+
 (* ---- the qualifiers of one feature ---- *)
 Lemma fold_quals qs : Forall wf_qual qs -> forall s m rest, st_closed s = true -> gf_info (st_cur s) = Some m -> st_key s <> [] ->
-  exists s', gb_fold s (map qual_line qs ++ rest) = gb_fold s' rest /\
-             st_closed s' = true /\ st_done s' = st_done s /\ st_line s' = (st_line s + length qs)%nat /\ st_key s' <> [] /\
+  exists s', gb_fold s (concat (map qual_lines qs) ++ rest) = gb_fold s' rest /\
+             st_closed s' = true /\ st_done s' = st_done s /\ (st_line s <= st_line s')%nat /\ st_key s' <> [] /\
              gf_key (st_cur s') = gf_key (st_cur s) /\ gf_loc (st_cur s') = gf_loc (st_cur s) /\
              exists m', gf_info (st_cur s') = Some m' /\ m' ++ [(st_key s', st_val s')] = m ++ [(st_key s, st_val s)] ++ map kv qs.
 Proof.
   induction 1 as [|q qs Hq Hqs IH]; intros s m rest Hc Hm Hk.
-  - exists s. cbn [map app length]. rewrite Nat.add_0_r. repeat split; try assumption; try reflexivity. exists m. split; [exact Hm|reflexivity].
-  - cbn [map app gb_fold_gen]. rewrite (step_qual s q m Hq Hc Hm). cbn [bind].
-    destruct (st_key s) as [|k0 kt] eqn:Ek; [congruence|].
-    set (s1 := {| st_closed := true; st_cur := with_info (st_cur s) (m ++ [(k0 :: kt, st_val s)]); st_key := qk q; st_val := qv q; st_done := st_done s; st_line := S (st_line s) |}).
+  - exists s. cbn [map concat app]. repeat split; try assumption; try reflexivity. exists m. split; [exact Hm|reflexivity].
+  - cbn [map concat]. rewrite <- app_assoc. destruct (qual_block s q m (concat (map qual_lines qs) ++ rest) Hq Hc Hm) as (n & E). rewrite E. clear E.
+    unfold cur_after. destruct (st_key s) as [|k0 kt] eqn:Ek; [congruence|].
+    set (s1 := {| st_closed := true; st_cur := with_info (st_cur s) (m ++ [(k0 :: kt, st_val s)]); st_key := qk q; st_val := qfull q; st_done := st_done s; st_line := S (st_line s + n) |}).
     destruct (IH s1 (m ++ [(k0 :: kt, st_val s)]) rest) as (s' & E & H1 & H2 & H3 & H4 & H5 & H6 & m' & H7 & H8); try reflexivity.
     { cbn [s1 st_key]. destruct Hq as (Hq1 & _). exact Hq1. }
     exists s'. split; [exact E|]. repeat split; try assumption.
-    + cbn [s1 st_line length] in *. lia.
+    + cbn [s1 st_line] in *. lia.
     + exists m'. split; [exact H7|]. rewrite H8. cbn [s1 st_key st_val map kv]. rewrite <- !app_assoc. reflexivity.
 Qed.
 
@@ -213,25 +307,29 @@ Proof.
 Qed.
 
 (* ---- one whole feature after another ---- *)
+Lemma qfull_nonempty q : wf_qual q -> qfull q <> [].
+Proof. intros (_ & _ & Hv & _). unfold qfull. destruct (qv q); [congruence|discriminate]. Qed.
 Lemma fold_feature_quals f s rest : wf_feat f -> st_closed s = true -> st_cur s = mk f -> st_key s = [] -> st_val s = [] ->
-  exists s', gb_fold s (map qual_line (fquals f) ++ rest) = gb_fold s' rest /\
-             st_closed s' = true /\ st_done s' = st_done s /\ st_line s' = (st_line s + length (fquals f))%nat /\ st_key s' <> [] /\ st_val s' <> [] /\
+  exists s', gb_fold s (concat (map qual_lines (fquals f)) ++ rest) = gb_fold s' rest /\
+             st_closed s' = true /\ st_done s' = st_done s /\ (st_line s <= st_line s')%nat /\ st_key s' <> [] /\ st_val s' <> [] /\
              exists m', st_cur s' = with_info (mk f) m' /\ m' ++ [(st_key s', st_val s')] = map kv (fquals f).
 Proof.
   intros (_ & _ & _ & _ & _ & Hne & Hqs & _) Hc Hcur Hk Hv. destruct (fquals f) as [|q qs] eqn:Eq; [congruence|]. inversion Hqs as [|? ? Hq Hqs']; subst.
-  cbn [map app gb_fold_gen]. rewrite (step_qual s q [] Hq Hc) by (rewrite Hcur; reflexivity). rewrite Hk. cbn [bind].
-  set (s1 := {| st_closed := true; st_cur := st_cur s; st_key := qk q; st_val := qv q; st_done := st_done s; st_line := S (st_line s) |}).
+  cbn [map concat]. rewrite <- app_assoc.
+  destruct (qual_block s q [] (concat (map qual_lines qs) ++ rest) Hq Hc) as (n & E); [rewrite Hcur; reflexivity|]. rewrite E. clear E.
+  unfold cur_after. rewrite Hk.
+  set (s1 := {| st_closed := true; st_cur := st_cur s; st_key := qk q; st_val := qfull q; st_done := st_done s; st_line := S (st_line s + n) |}).
   destruct (fold_quals qs Hqs' s1 [] rest) as (s' & E & H1 & H2 & H3 & H4 & H5 & H6 & m' & H7 & H8); try reflexivity.
   { cbn [s1 st_cur]. rewrite Hcur. reflexivity. }
   { cbn [s1 st_key]. destruct Hq as (Hq1 & _). exact Hq1. }
-  exists s'. split; [exact E|]. split; [exact H1|]. split; [exact H2|]. split; [cbn [s1 st_line length] in *; lia|]. split; [exact H4|].
+  exists s'. split; [exact E|]. split; [exact H1|]. split; [exact H2|]. split; [cbn [s1 st_line] in *; lia|]. split; [exact H4|].
   assert (Hlast : exists q', In q' (q :: qs) /\ (st_key s', st_val s') = kv q').
   { assert (In (st_key s', st_val s') (map kv (q :: qs))).
     { assert (E8 : map kv (q :: qs) = m' ++ [(st_key s', st_val s')]) by (rewrite H8; reflexivity).
       rewrite E8. apply in_app_iff. right; left; reflexivity. }
     apply in_map_iff in H as (q' & Hq' & Hin). exists q'. split; [exact Hin|symmetry; exact Hq']. }
   destruct Hlast as (q' & Hin & Ekv). split.
-  - injection Ekv as _ Ev. rewrite Ev. rewrite Forall_forall in Hqs. destruct (Hqs q' Hin) as (_ & _ & Hv' & _). exact Hv'.
+  - injection Ekv as _ Ev. rewrite Ev. rewrite Forall_forall in Hqs. apply qfull_nonempty. exact (Hqs q' Hin).
   - exists m'. split.
     + destruct (st_cur s') as [k' l' i'] eqn:Ec. cbn [gf_key gf_loc gf_info] in *. cbn [s1 st_cur] in H5, H6. rewrite Hcur in H5, H6. cbn [mk gf_key gf_loc] in H5, H6.
       subst k' l' i'. reflexivity.
@@ -239,7 +337,7 @@ Proof.
 Qed.
 
 Lemma fold_feature_lines f s rest : wf_feat f -> st_closed s = true -> st_cur s = mk0 f -> st_key s = [] -> st_val s = [] -> st_line s <> 0%nat ->
-  exists s', gb_fold s (map cont_line (fmore f) ++ map qual_line (fquals f) ++ rest) = gb_fold s' rest /\
+  exists s', gb_fold s (map cont_line (fmore f) ++ concat (map qual_lines (fquals f)) ++ rest) = gb_fold s' rest /\
              st_closed s' = true /\ st_done s' = st_done s /\ st_line s' <> 0%nat /\ st_key s' <> [] /\ st_val s' <> [] /\
              exists m', st_cur s' = with_info (mk f) m' /\ m' ++ [(st_key s', st_val s')] = map kv (fquals f).
 Proof.
@@ -313,7 +411,7 @@ Qed.
 
 (* ---- before repair D23 a location continued on a second line was cut at the line end ---- *)
 Definition wrapped_cds : wfeat :=
-  {| fk := bs "CDS"; floc := bs "join(4..12,20..28,"; fmore := [bs "40..48)"]; fquals := [{| qk := bs "gene"; qv := bs "g1"; qquoted := true |}] |}.
+  {| fk := bs "CDS"; floc := bs "join(4..12,20..28,"; fmore := [bs "40..48)"]; fquals := [{| qk := bs "gene"; qv := bs "g1"; qquoted := true; qmore := [] |}] |}.
 Lemma wrapped_cds_wf : wf_feat wrapped_cds.
 Proof.
   unfold wf_feat, wrapped_cds, wf_chunk, wf_qual, nospace, lacks. cbn [fk floc fmore fquals qk qv qquoted].
@@ -330,3 +428,27 @@ Theorem wrapped_location_old_refuted :
   exists f, wf_feat f /\ parse_features_old (render_features [f]) = Ok [{| gf_key := fk f; gf_loc := floc f; gf_info := gf_info (parsed f) |}] /\
             floc f <> full_loc f /\ parse_features (render_features [f]) = Ok [parsed f].
 Proof. exists wrapped_cds. split; [exact wrapped_cds_wf|]. split; [vm_compute; reflexivity|]. split; [discriminate|]. vm_compute. reflexivity. Qed.
+
+(* ---- a quoted value that runs over three lines (a long /translation), after a one-line qualifier: the premises are satisfiable ---- *)
+Definition long_value_cds : wfeat :=
+  {| fk := bs "CDS"; floc := bs "1..30"; fmore := [];
+     fquals := [{| qk := bs "gene"; qv := bs "g1"; qquoted := true; qmore := [] |};
+                {| qk := bs "translation"; qv := bs "MKV"; qquoted := true; qmore := [bs "LLA"; bs "QQ"] |}] |}.
+Lemma long_value_cds_wf : wf_feat long_value_cds.
+Proof.
+  assert (L : forall s0 x, forallb (fun c => negb (c =? s0)) x = true -> lacks s0 x).
+  { intros s0 x H0 c Hc E0. rewrite forallb_forall in H0. specialize (H0 c Hc). rewrite E0, N.eqb_refl in H0. discriminate. }
+  unfold wf_feat, long_value_cds. cbn [fk floc fmore fquals].
+  split; [discriminate|]. split; [repeat constructor|]. split; [discriminate|]. split; [discriminate|]. split; [repeat constructor|]. split; [discriminate|].
+  split; [|constructor].
+  constructor; [|constructor; [|constructor]]; unfold wf_qual; cbn [qk qv qquoted qmore].
+  - split; [discriminate|]. split; [apply L; reflexivity|]. split; [discriminate|]. split; [apply L; reflexivity|]. split; [apply L; reflexivity|].
+    split; [discriminate|]. intros Hx. congruence.
+  - split; [discriminate|]. split; [apply L; reflexivity|]. split; [discriminate|]. split; [apply L; reflexivity|]. split; [apply L; reflexivity|].
+    split; [discriminate|]. intros _. split; [reflexivity|]. split; [reflexivity|].
+    constructor; [|constructor; [|constructor]]; (split; [discriminate|]; split; [apply L; reflexivity|]; split; reflexivity).
+Qed.
+Example long_value_read :
+  parse_features (render_features [long_value_cds]) = Ok [parsed long_value_cds] /\
+  info_get (bs "translation") (map kv (fquals long_value_cds)) = Some (bs "MKVLLAQQ") /\ length (render_features [long_value_cds]) = 5%nat.
+Proof. split; [apply features_roundtrip; [discriminate|constructor; [exact long_value_cds_wf|constructor]]|]. split; reflexivity. Qed.
